@@ -1,7 +1,61 @@
-(** Property C06 — foreign keys are pure substitution (work in progress). *)
+(** Property C06 — foreign keys are pure substitution.
+    This file holds only property theorems (closed by [exact]), examples and refutations. *)
 From Coq Require Import List NArith Bool.
 Import ListNotations.
-From LI Require Import Base.StrOps Parser.Parse Parser.Reduce Parser.Foreign.
+From LI Require Import Base.StrOps Parser.Parse Parser.Json Parser.Reduce Parser.ReduceProofs Parser.Foreign Parser.ForeignProofs Parser.ForeignCheck.
 
-Theorem C06_subst : True. Proof. exact I. Qed.
-Theorem C06_old_refuted : True. Proof. exact I. Qed.
+(** Supplying arguments is substitution on the denotation: every variable of that name is replaced by
+    the argument's pieces, wherever it occurs (inside components, at any depth), nothing else changes. *)
+Theorem C06_subst : forall args v, pieces (populate args v) = subst_pieces (arg_pieces args) (pieces v).
+Proof. exact populate_subst. Qed.
+
+(** After resolution no foreign key is left, for every project, locale, stack and value: the reducer
+    (which panics on an unresolved foreign key) never meets one, and keeps the denotation. *)
+Theorem C06_resolved_closed : forall vals dflt inherits fuel stack L v r,
+  resolve vals dflt inherits fuel stack L v = Ok r -> no_foreign r = true.
+Proof. exact resolve_no_foreign. Qed.
+Theorem C06_resolve_then_reduce : forall vals dflt inherits fuel stack L v r,
+  resolve vals dflt inherits fuel stack L v = Ok r -> exists r', reduce r = Ok r' /\ pieces r' = pieces r.
+Proof. exact resolve_then_reduce. Qed.
+
+(** Rejections name their cause: a missing target, a subkey group, a value that is already being
+    resolved (any cycle re-enters a value on the stack). *)
+Theorem C06_missing : forall vals dflt inherits f stack L ns p args,
+  get_value_at vals L (ns, p) = None ->
+  resolve vals dflt inherits (S f) stack L (PForeign ns p args) = Err E_MissingForeignKey.
+Proof. exact resolve_missing. Qed.
+Theorem C06_cycle : forall vals dflt inherits f stack L ns p args T,
+  get_value_at vals L (ns, p) = Some (NVal T) -> on_stack L (ns, p) stack = true ->
+  resolve vals dflt inherits (S f) stack L (PForeign ns p args) = Err E_RecursiveForeignKey.
+Proof. exact resolve_cycle. Qed.
+Theorem C06_group : forall vals dflt inherits f stack L ns p sub,
+  get_value_at vals L (ns, p) = Some (NSub sub) ->
+  resolve vals dflt inherits (S f) stack L (PForeign ns p []) = Err E_InvalidForeignKey.
+Proof. exact resolve_group. Qed.
+
+(** The full soundness statement (the model's final value denotes the source-level inlining semantics
+    for every acyclic project, independently of the order in which registered paths are visited) is not
+    proved; it is evaluated on every correspondence case through [spec_C06]. *)
+Definition C06_sound_statement : Prop :=
+  forall c ents, f_expect c = None -> model_project c = Ok ents -> spec_C06 (mk_fcase (f_default c) (f_inherits c) (f_files c) (f_src c) None (Ok ents)) = true.
+
+(** the two defects repaired in /repo, as the outputs observed before the repair: the spec rejects them.
+    k1 = $t(k2, {"x": "A"}), k2 = $t(k3), k3 = [{{ x }}]  rendered  [{{ x }}]  *)
+Definition s (l : list N) : str := l.
+Definition chain_case (k1_final : pv) : fcase :=
+  mk_fcase (s [101;110]) []
+    [(None, s [101;110], [(s [107;49], JStr (s [36;116;40;107;50;44;32;123;34;120;34;58;32;34;65;34;125;41]));
+                          (s [107;50], JStr (s [36;116;40;107;51;41]));
+                          (s [107;51], JStr (s [91;123;123;32;120;32;125;125;93]))])]
+    [(None, s [101;110], [s [107;49]], Some [XRef None [s [107;50]] [(s [120], XAStr [XText (s [65])])]]);
+     (None, s [101;110], [s [107;50]], Some [XRef None [s [107;51]] []]);
+     (None, s [101;110], [s [107;51]], Some [XText (s [91]); XVar (s [120]); XText (s [93])])]
+    None
+    (Ok [(None, s [101;110], [s [107;49]], Some k1_final);
+         (None, s [101;110], [s [107;50]], Some (PBloc [PLit (LStr (s [91])); PVar (s [118;97;114;95;120]) FNone; PLit (LStr (s [93]))]));
+         (None, s [101;110], [s [107;51]], Some (PBloc [PLit (LStr (s [91])); PVar (s [118;97;114;95;120]) FNone; PLit (LStr (s [93]))]))]).
+Theorem C06_old_refuted :
+  spec_C06 (chain_case (PBloc [PLit (LStr (s [91])); PVar (s [118;97;114;95;120]) FNone; PLit (LStr (s [93]))])) = false
+  /\ spec_C06 (chain_case (PLit (LStr (s [91;65;93])))) = true
+  /\ check_C06 (chain_case (PLit (LStr (s [91;65;93])))) = 0%N.
+Proof. repeat split; vm_compute; reflexivity. Qed.
